@@ -106,7 +106,7 @@ fn weights(mode: &str) -> [usize; 30] {
     //                 var neg and or xor iff ite cond condm ex comp andl orl newv eq rechk cnf cnfa expr plan smooth wmc eval count semh mmap meu bb uwmc cmpl
     match mode {
         "c01" => [5, 3, 8, 8, 6, 6, 10, 6, 4, 6, 6, 3, 3, 1, 0, 2, 0, 0, 0, 0, 0, 0, 0, 0, 0, 0, 0, 0, 0, 0],
-        "c02" => [5, 3, 8, 8, 6, 6, 10, 6, 3, 6, 5, 2, 2, 1, 8, 2, 1, 0, 1, 0, 0, 0, 0, 0, 0, 0, 0, 0, 0, 0],
+        "c02" | "c16" => [5, 3, 8, 8, 6, 6, 10, 6, 3, 6, 5, 2, 2, 1, 8, 2, 1, 0, 1, 0, 0, 0, 0, 0, 0, 0, 0, 0, 0, 0],
         "c05" => [2, 1, 2, 2, 1, 1, 2, 1, 1, 1, 0, 0, 0, 0, 0, 0, 8, 8, 8, 8, 0, 0, 0, 0, 0, 0, 0, 0, 0, 0],
         "c07" => [4, 2, 5, 5, 4, 4, 6, 3, 1, 3, 2, 1, 1, 1, 0, 0, 2, 0, 1, 0, 0, 12, 6, 0, 0, 0, 0, 0, 6, 0],
         "c08" => [4, 2, 5, 5, 4, 4, 6, 3, 1, 3, 2, 1, 1, 0, 0, 0, 1, 0, 1, 0, 14, 0, 0, 0, 0, 0, 0, 0, 0, 0],
@@ -317,7 +317,7 @@ impl<'a, T: IteTable<'a, BddPtr<'a>> + Default> Session<'a, T> {
         let nv = self.nv;
         let vl = |v: usize| VarLabel::new_usize(v);
         let res_slot = 2 + (self.next_slot % (K - 2));
-        let mut ev = json!({ "ev": op });
+        let mut ev = json!({ "ev": op, "a": [] });
         // ---------------- operations that produce a diagram ----------------
         let produced: Option<Result<BddPtr<'a>, String>> = match op {
             "var" => {
@@ -529,7 +529,7 @@ impl<'a, T: IteTable<'a, BddPtr<'a>> + Default> Session<'a, T> {
                         ev["w"] = json!((0..nv)
                             .map(|i| {
                                 let (l, h) = map.var_weight(vl(i));
-                                vec![l.value() as u64, h.value() as u64]
+                                vec![vec![l.value() as u64], vec![h.value() as u64]]
                             })
                             .collect::<Vec<_>>());
                         guarded(|| x.semantic_hash(&map)).map(|v| ev["val"] = json!(v.value() as u64))
@@ -881,6 +881,19 @@ pub fn rand_cfg(rng: &mut Rng, nmax: usize, mode: &str) -> SegCfg {
     SegCfg { n0, nmax, order, cache, tcap, ccap }
 }
 
+fn run_cfg(cfg: &SegCfg, rng: &mut Rng, mode: &str, len: usize, out: &mut Out) {
+    rsdd::verif::set_table_capacity(cfg.tcap);
+    rsdd::verif::set_lru_capacity(cfg.ccap);
+    let order: Vec<VarLabel> = cfg.order.iter().map(|v| VarLabel::new_usize(*v)).collect();
+    if cfg.cache == "all" {
+        let b = RobddBuilder::<AllIteTable<BddPtr>>::new(VarOrder::new(&order));
+        run_segment(&b, cfg, rng, mode, len, out);
+    } else {
+        let b = RobddBuilder::<LruIteTable<BddPtr>>::new(VarOrder::new(&order));
+        run_segment(&b, cfg, rng, mode, len, out);
+    }
+}
+
 pub fn record(args: &Args) {
     let seed = args.num("seed", 1);
     let segs = args.num("segments", 4) as usize;
@@ -892,15 +905,41 @@ pub fn record(args: &Args) {
     out.emit(json!({"ev": "init", "kind": "bdd", "nmax": nmax, "k": K, "mode": mode, "seed": seed}));
     for _ in 0..segs {
         let cfg = rand_cfg(&mut rng, nmax, &mode);
-        rsdd::verif::set_table_capacity(cfg.tcap);
-        rsdd::verif::set_lru_capacity(cfg.ccap);
-        let order: Vec<VarLabel> = cfg.order.iter().map(|v| VarLabel::new_usize(*v)).collect();
-        if cfg.cache == "all" {
-            let b = RobddBuilder::<AllIteTable<BddPtr>>::new(VarOrder::new(&order));
-            run_segment(&b, &cfg, &mut rng, &mode, len, &mut out);
+        if mode == "c16" {
+            // lock-step: the same program (same random stream) under the cache-everything table and
+            // under a tiny lossy cache; the twin's raw answers are attached to the primary's events
+            let mut primary = cfg.clone();
+            primary.cache = "all";
+            primary.ccap = None;
+            let mut twin = cfg.clone();
+            twin.cache = "lru";
+            twin.ccap = Some(*rng.pick(&[0usize, 1, 2, 4]));
+            let mut r1 = rng.clone();
+            let mut r2 = rng.clone();
+            let mut o1 = Out::memory();
+            let mut o2 = Out::memory();
+            run_cfg(&primary, &mut r1, &mode, len, &mut o1);
+            run_cfg(&twin, &mut r2, &mode, len, &mut o2);
+            rng = r1;
+            let (a, b) = (o1.mem.unwrap(), o2.mem.unwrap());
+            for (i, mut e) in a.into_iter().enumerate() {
+                if i == 0 {
+                    e["twin_ccap"] = json!(twin.ccap.unwrap());
+                } else if let Some(t) = b.get(i) {
+                    e["tev"] = t["ev"].clone();
+                    e["ta"] = t.get("a").cloned().unwrap_or(json!([]));
+                    for k in ["root", "nodes", "val", "panic"] {
+                        if let Some(v) = t.get(k) {
+                            e[format!("t{k}")] = v.clone();
+                        }
+                    }
+                } else {
+                    e["tev"] = json!("missing");
+                }
+                out.emit(e);
+            }
         } else {
-            let b = RobddBuilder::<LruIteTable<BddPtr>>::new(VarOrder::new(&order));
-            run_segment(&b, &cfg, &mut rng, &mode, len, &mut out);
+            run_cfg(&cfg, &mut rng, &mode, len, &mut out);
         }
     }
     rsdd::verif::set_table_capacity(0);
